@@ -421,6 +421,31 @@ func TestKnown_C09_UntrackedAcquireIssuesCreateAfterStop(t *testing.T) {
 	}
 }
 
+// lockinv(mu).claim_implies_running@StopWithContext: a restart that overlaps the wait of
+// StopWithContext has its fresh context set to nil by the tail of the old stop.
+func TestKnown_C09_RestartDuringStopWithContextLosesContext(t *testing.T) {
+	e, _ := kElection(t, kCfg())
+	release := make(chan struct{})
+	e.OnPromote(func(ctx context.Context, tok string) { <-release }) // keeps the wait group busy
+	kLeader(t, e)
+	stopped := make(chan error, 1)
+	go func() { stopped <- e.StopWithContext(context.Background(), StopOptions{Timeout: 5 * time.Second}) }()
+	WaitForCondition(t, func() bool { return e.Status().State == StateStopped }, 2*time.Second, "state STOPPED")
+	if err := e.Start(context.Background()); err != nil { // restart while the old stop is still waiting
+		t.Fatalf("restart refused: %v", err)
+	}
+	time.Sleep(300 * time.Millisecond)
+	close(release)
+	if err := <-stopped; err != nil {
+		t.Fatalf("StopWithContext: %v", err)
+	}
+	st := e.Status().State
+	err := e.Stop()
+	if st != StateStopped && errors.Is(err, ErrAlreadyStopped) {
+		t.Fatalf("VIOLATION-REPRODUCED: the restarted election is running (state %s) but its context was set to nil by the earlier StopWithContext: Stop() answers %v and its goroutines can no longer be stopped", st, err)
+	}
+}
+
 // ---------------------------------------------------------------- C11
 
 // C11.expiry_is_current: an expiry callback that fired for an earlier disconnect demotes before the grace period of the latest one.
